@@ -1,4 +1,4 @@
-import OtelVerif.Model.C05
+import OtelVerif.Model.C05Src
 /-!
 # C05 — retry resends only the retryable remainder, within limits, never after a verdict
 
@@ -1299,5 +1299,235 @@ theorem C05_lawAlongB_iff (c : Cfg) : ∀ (s : List Attempt) (cur : Nat), lawAlo
       by_cases hn : c.rfNum = 0
       · exact Or.inl hn
       · exact Or.inr (h1 hn)
+
+
+/-! # Round 2 (second session): the model against the definitions regenerated from /repo; per-signal partial-failure constructors; defaults; giving up -/
+section Src
+open OtelVerif.Gen
+
+/-- `validateBackoff` is the regenerated `BackOffConfig.Validate` (same check order, same index = position of the
+`errors.New` in the source) -/
+theorem C05_src_validate_backoff (r : RawCfg) : RetryCfg.BackOffConfig.Validate r.toGo = validateBackoff r := by
+  unfold RetryCfg.BackOffConfig.Validate validateBackoff RawCfg.toGo
+  simp only [Bool.or_eq_true, decide_eq_true_eq, Int.zero_mul, Int.one_mul]
+
+theorem C05_src_validate_timeout (r : RawCfg) : (RetryCfg.TimeoutConfig.Validate r.toGoTimeout = 0) = (validateTimeout r = true) := by
+  unfold RetryCfg.TimeoutConfig.Validate validateTimeout RawCfg.toGoTimeout
+  by_cases h : r.timeout < 0 <;> simp [h]
+
+/-- `grpcRetryable` is the regenerated `otlpexporter.shouldRetry` -/
+theorem C05_src_grpc_retryable (code : Nat) (ri : Bool) : RetryCfg.shouldRetry code ri = grpcRetryable code ri := by
+  unfold RetryCfg.shouldRetry grpcRetryable
+  by_cases h1 : code = 1 <;> by_cases h4 : code = 4 <;> by_cases h10 : code = 10 <;> by_cases h11 : code = 11 <;>
+    by_cases h14 : code = 14 <;> by_cases h15 : code = 15 <;> by_cases h8 : code = 8 <;> simp_all
+
+
+/-! ## the per-signal partial-failure constructors -/
+
+/-- the regenerated shape tables say what the model of the constructors assumes, for all four signals: each request type's
+`OnError` searches exactly the error type its own constructor builds (`errors.As`), the constructor keeps `err` in `Err`
+and `data` in `Value`, `Unwrap` returns `Err` and `Data` returns `Value` -/
+theorem C05_src_signal_tables : signalTablesOK = true := by decide
+
+/-- **only the named subset is resent, per signal**: when the backend's error is (outermost) a partial-failure error of
+the request's own signal naming `data`, the next attempt carries exactly `data`, whatever the error it wraps -/
+theorem C05_onError_own_signal (sig : Signal) (e : Err) (data payload : List Nat) :
+    onError payload (newSignalErr sig sig e data) = data := by
+  simp [onError, newSignalErr, Err.remainder, Err.find]
+
+/-- a partial-failure error of ANOTHER signal is transparent to `OnError`: what is resent is decided by the chain below it
+(the whole payload if nothing of the own type is there) -/
+theorem C05_onError_other_signal (req sig : Signal) (h : req ≠ sig) (e : Err) (data payload : List Nat) :
+    onError payload (newSignalErr req sig e data) = onError payload e := by
+  simp [onError, newSignalErr, h, Err.remainder, Err.find]
+
+/-- the constructors do not hide the classification of the error they carry (`Retryable.Unwrap` returns it): permanence,
+shutdown classification and the throttle delay are those of the wrapped error, for every pair of signals -/
+theorem C05_signal_err_transparent (req sig : Signal) (e : Err) (data : List Nat) :
+    (newSignalErr req sig e data).isPermanent = e.isPermanent ∧
+    (newSignalErr req sig e data).isShutdown = e.isShutdown ∧
+    (newSignalErr req sig e data).throttleDelay = e.throttleDelay := by
+  by_cases h : req = sig <;> simp [newSignalErr, h, Err.isPermanent, Err.isShutdown, Err.throttleDelay, Err.find]
+
+example : onError [1, 2, 3] (.wrap (newSignalErr .traces .traces (.throttle 5 .leaf) [2])) = [2] ∧
+    onError [1, 2, 3] (newSignalErr .traces .logs .leaf [2]) = [1, 2, 3] := by decide
+
+/-! ## the default configuration -/
+
+/-- the regenerated defaults (`NewDefaultBackOffConfig`: enabled, 5 s initial, rf 0.5, multiplier 1.5, 30 s cap, 5 min budget;
+`NewDefaultTimeoutConfig`: 5 s) are accepted by both `Validate`s, and they are a "usual" configuration: the hypotheses of
+`C05_interval_exponential` hold, so the un-randomised intervals are 5 s, 7.5 s, 11.25 s, … capped at 30 s -/
+theorem C05_default_config_valid :
+    validateBackoff defaultRaw = 0 ∧ validateTimeout defaultRaw = true ∧
+    defaultCfg.enabled = true ∧ 0 < defaultCfg.initial ∧ defaultCfg.initial ≤ defaultCfg.maxInt ∧
+    0 < defaultCfg.mulDen ∧ defaultCfg.mulDen ≤ defaultCfg.mulNum ∧ defaultCfg.rfNum ≤ defaultCfg.rfDen ∧
+    defaultCfg.maxInt ≤ defaultCfg.maxElapsed ∧ defaultCfg.timeout = 5000000000 := by decide
+
+example : (List.range 7).map (interval defaultCfg) =
+    [5000000000, 7500000000, 11250000000, 16875000000, 25312500000, 30000000000, 30000000000] := by decide
+
+/-- `NewBaseExporter` (regenerated shape): the timeout sender is wrapped around the pusher first, only when
+`Timeout != 0`; the retry sender around that, only when `Enabled` — the retry loop is OUTSIDE the per-attempt timeout
+(`attemptCtxDone` gives every attempt a fresh `start + timeout`), and a disabled retry leaves the bare chain (`Reason.raw`) -/
+theorem C05_src_sender_chain :
+    RetryCfg.senderChain = [("timeout", "be.timeoutCfg.Timeout != 0"), ("retry", "be.retryCfg.Enabled")] := by decide
+
+/-! ## giving up: the elapsed-time budget bounds the number of attempts -/
+
+theorem finish_ge {c : Cfg} {e : Env} {now : Nat} {a : Attempt} {fin : Nat} (h : finish c e now a = some fin) : now ≤ fin := by
+  unfold finish at h
+  split at h
+  · cases hd : attemptCtxDone c e now with
+    | none => simp [hd] at h
+    | some d => simp [hd] at h; omega
+  · simp at h; omega
+
+/-- **liveness of giving up.** With a finite `max_elapsed_time`, if every wait the loop can plan is at least `m > 0`
+(`P` is any invariant of the library's `currentInterval`), then `Send` makes at most `max_elapsed_time / m + 1` attempts,
+HOWEVER long the backend keeps failing (scripts of any length, any throttle / partial failures, any events):
+`#calls · m ≤ max_elapsed_time + m` -/
+theorem C05_attempts_bounded (c : Cfg) (e : Env) (m : Nat) (P : Nat → Prop)
+    (hstep : ∀ cur, P cur → P (nextCur c (curInterval c cur))) (hE : 0 < c.maxElapsed) :
+    ∀ (s : List Attempt) (now cur : Nat) (p : List Nat), P cur → now ≤ c.maxElapsed →
+      (∀ a ∈ s, ∀ cur, P cur → m ≤ waitAfter c cur a) →
+      (run c e now cur p s).calls.length * m ≤ (c.maxElapsed - now) + m := by
+  intro s
+  induction s with
+  | nil => intro now cur p _ _ _; simp [run]
+  | cons a as ih =>
+    intro now cur p hP hnow hw
+    by_cases hc : ∃ fin, RetryCond c e now cur a fin
+    · obtain ⟨fin, hc⟩ := hc
+      rw [run_retry hc]
+      have hfin := finish_ge hc.1
+      have hfit := hc.2.2.2.2.1
+      have hwa := hw a (List.mem_cons_self ..) cur hP
+      have hle : fin + waitAfter c cur a ≤ c.maxElapsed := by rcases hfit with h0 | h0 <;> omega
+      have ih' := ih (fin + waitAfter c cur a) (nextCur c (curInterval c cur)) (a.rest.getD p) (hstep cur hP) hle
+        (fun a' ha' => hw a' (List.mem_cons_of_mem _ ha'))
+      simp only [List.length_cons, Nat.succ_mul]
+      omega
+    · rw [run_single hc]; omega
+
+/-- instance for the usual configurations without randomisation (positive initial interval not above the cap,
+multiplier ≥ 1, `rf = 0`): every wait is at least the initial interval, so at most
+`max_elapsed_time / initial_interval + 1` attempts are made for any request -/
+theorem C05_gives_up_within_budget (c : Cfg) (e : Env) (p : List Nat) (s : List Attempt)
+    (h1 : c.initial ≤ c.maxInt) (hd : 0 < c.mulDen) (hm : c.mulDen ≤ c.mulNum) (hrf : c.rfNum = 0)
+    (hE : 0 < c.maxElapsed) :
+    (send c e p s).calls.length * c.initial ≤ c.maxElapsed + c.initial := by
+  have key := C05_attempts_bounded c e c.initial (fun cur => cur = 0 ∨ c.initial ≤ cur) ?_ hE s 0 0 p (Or.inl rfl) (Nat.zero_le _) ?_
+  · simpa [send] using key
+  · intro cur hP
+    right
+    have hiv : c.initial ≤ curInterval c cur := by
+      unfold curInterval; split <;> omega
+    unfold nextCur
+    split
+    · exact h1
+    · rw [Nat.le_div_iff_mul_le hd]
+      exact Nat.le_trans (Nat.mul_le_mul_right _ hiv) (Nat.mul_le_mul_left _ hm)
+  · intro a _ cur hP
+    have hiv : c.initial ≤ curInterval c cur := by
+      unfold curInterval; split <;> omega
+    unfold waitAfter waitOf backoffDelay
+    cases a.throttle <;> simp [hrf] <;> omega
+
+/-- the same for any randomisation factor, given a lower bound `m ≤ initial_interval` on the library's draws for the script
+(under `LibLaw`: `drawn + 1 ≥ interval·(1 − rf) ≥ initial·(1 − rf)`): at most `max_elapsed_time / m + 1` attempts -/
+theorem C05_gives_up_within_budget_any_rf (c : Cfg) (e : Env) (p : List Nat) (s : List Attempt) (m : Nat)
+    (h1 : c.initial ≤ c.maxInt) (hd : 0 < c.mulDen) (hm : c.mulDen ≤ c.mulNum)
+    (hE : 0 < c.maxElapsed) (hmi : m ≤ c.initial) (hdraw : c.rfNum ≠ 0 → ∀ a ∈ s, m ≤ a.drawn) :
+    (send c e p s).calls.length * m ≤ c.maxElapsed + m := by
+  have key := C05_attempts_bounded c e m (fun cur => cur = 0 ∨ c.initial ≤ cur) ?_ hE s 0 0 p (Or.inl rfl) (Nat.zero_le _) ?_
+  · simpa [send] using key
+  · intro cur hP
+    right
+    have hiv : c.initial ≤ curInterval c cur := by
+      unfold curInterval; split <;> omega
+    unfold nextCur
+    split
+    · exact h1
+    · rw [Nat.le_div_iff_mul_le hd]
+      exact Nat.le_trans (Nat.mul_le_mul_right _ hiv) (Nat.mul_le_mul_left _ hm)
+  · intro a ha cur hP
+    have hiv : c.initial ≤ curInterval c cur := by
+      unfold curInterval; split <;> omega
+    have hb : m ≤ backoffDelay c (curInterval c cur) a := by
+      unfold backoffDelay
+      split
+      · omega
+      · rename_i hrf; exact hdraw hrf a ha
+    unfold waitAfter waitOf
+    cases a.throttle <;> simp <;> omega
+
+/-- the draws the library law allows are bounded below as `C05_gives_up_within_budget_any_rf` needs -/
+theorem libLaw_lower (c : Cfg) (iv d : Nat) (h : LibLaw c iv d) (hi : c.initial ≤ iv) :
+    c.initial * (c.rfDen - c.rfNum) ≤ (d + 1) * c.rfDen :=
+  Nat.le_trans (Nat.mul_le_mul_right _ hi) h.1
+
+/-- the DEFAULT configuration (regenerated: 5 s, ×1.5, cap 30 s, rf 0.5, budget 5 min) gives up after at most 121
+attempts on any request, for draws within the library law's lower end (`≥ 2.5 s − 1 ns`) -/
+theorem C05_default_gives_up (e : Env) (p : List Nat) (s : List Attempt) (hdraw : ∀ a ∈ s, 2499999999 ≤ a.drawn) :
+    (send defaultCfg e p s).calls.length ≤ 121 := by
+  have h := C05_gives_up_within_budget_any_rf defaultCfg e p s 2499999999 (by decide) (by decide) (by decide) (by decide) (by decide)
+    (fun _ => hdraw)
+  have h2 : defaultCfg.maxElapsed = 300000000000 := by decide
+  omega
+
+/-- non-vacuity: the DESIGN probe (1 s initial, ×2, cap 10 s, 60 s budget, rf 0) keeps failing for 40 outcomes: 9 attempts,
+within the bound 61 -/
+example : let c : Cfg := { enabled := true, initial := 1000000000, maxInt := 10000000000, maxElapsed := 60000000000, mulNum := 2, mulDen := 1, rfNum := 0, rfDen := 1, timeout := 0 }
+    (send c {} [1] (List.replicate 40 {})).calls.length = 9 := by decide
+
+example : (send defaultCfg {} [1] (List.replicate 12 { drawn := 2500000000 })).calls.length = 13 ∧ (∀ a ∈ List.replicate 12 ({ drawn := 2500000000 } : Attempt), 2499999999 ≤ a.drawn) := by decide
+
+/-- **the library law is a theorem about the library's formula**: for every interval, every randomisation factor in (0, 1]
+and every `random ∈ [0, 1)` the value `getRandomValueFromInterval` computes (exact arithmetic) satisfies `LibLaw` — the
+hypothesis of `C05_wait_envelope` / `LawAlong` is what the formula yields, not an extra assumption about the draw -/
+theorem C05_library_draw_satisfies_law (c : Cfg) (iv rn rd : Nat) (hrf : c.rfNum ≠ 0) (hle : c.rfNum ≤ c.rfDen)
+    (hrd : rn < rd) : LibLaw c iv (libDraw c iv rn rd) := by
+  have hden : 0 < c.rfDen := by omega
+  have hrd0 : 0 < rd := by omega
+  have hD : 0 < c.rfDen * rd := Nat.mul_pos hden hrd0
+  unfold libDraw
+  rw [if_neg hrf]
+  generalize hA : iv * (c.rfDen - c.rfNum) * rd + rn * (2 * iv * c.rfNum + c.rfDen) = A
+  have hlo : iv * (c.rfDen - c.rfNum) * rd ≤ A := by omega
+  -- A < rd * (iv * (rfDen + rfNum) + rfDen)
+  have hhi : A < (iv * (c.rfDen + c.rfNum) + c.rfDen) * rd := by
+    have h1 : rn * (2 * iv * c.rfNum + c.rfDen) < rd * (2 * iv * c.rfNum + c.rfDen) :=
+      Nat.mul_lt_mul_of_lt_of_le hrd (Nat.le_refl _) (by omega)
+    have h2 : iv * (c.rfDen - c.rfNum) * rd + rd * (2 * iv * c.rfNum + c.rfDen) = (iv * (c.rfDen + c.rfNum) + c.rfDen) * rd := by
+      have e : c.rfDen + c.rfNum = (c.rfDen - c.rfNum) + 2 * c.rfNum := by omega
+      rw [e]
+      simp only [Nat.mul_add, Nat.mul_comm, Nat.mul_left_comm]
+      omega
+    omega
+  have hq1 : A < (A / (c.rfDen * rd) + 1) * (c.rfDen * rd) := by
+    rw [Nat.mul_comm]; exact Nat.lt_mul_div_succ A hD
+  have hq2 : A / (c.rfDen * rd) * (c.rfDen * rd) ≤ A := Nat.div_mul_le_self A _
+  constructor
+  · -- iv*(rfDen-rfNum) ≤ (drawn+1)*rfDen
+    have : iv * (c.rfDen - c.rfNum) * rd < (A / (c.rfDen * rd) + 1) * c.rfDen * rd := by
+      rw [Nat.mul_assoc ((A / (c.rfDen * rd) + 1))]; omega
+    exact Nat.le_of_lt (Nat.lt_of_mul_lt_mul_right this)
+  · -- drawn*rfDen ≤ iv*(rfDen+rfNum) + rfDen
+    have : A / (c.rfDen * rd) * c.rfDen * rd < (iv * (c.rfDen + c.rfNum) + c.rfDen) * rd := by
+      rw [Nat.mul_assoc (A / (c.rfDen * rd))]; omega
+    exact Nat.le_of_lt (Nat.lt_of_mul_lt_mul_right this)
+
+example : libDraw { enabled := true, initial := 0, maxInt := 0, maxElapsed := 0, mulNum := 3, mulDen := 2, rfNum := 1, rfDen := 2, timeout := 0 } 1000 0 1 = 500 ∧
+    libDraw { enabled := true, initial := 0, maxInt := 0, maxElapsed := 0, mulNum := 3, mulDen := 2, rfNum := 1, rfDen := 2, timeout := 0 } 1000 999 1000 = 1499 := by decide
+
+
+/-- **source pins**: the regenerated statement lists of the functions that are modelled by hand (outside the compiled subset)
+are exactly the ones the model was written from — an edit of any of them stops the build until the model has been re-examined -/
+theorem C05_src_skeletons : SrcPinned := by
+  unfold SrcPinned
+  repeat' apply And.intro
+  all_goals rfl
+
+end Src
 
 end OtelVerif.C05
